@@ -187,6 +187,8 @@ class UnknownOperand(Operand):
             self.value = Value.create_from_str(operand_string, instruction)
         except ValueTypeError:
             raise OperandTypeError("[{}] unknown operand type".format(operand_string))
+        if self.value.is_leftright():
+            raise OperandTypeError("[{}] unknown operand type".format(operand_string))
 
     def translate(self):
         return CodePackage(additional=self.value)
@@ -421,7 +423,7 @@ class ImmediateOperand(Operand):
             self.value = Value.create_from_str(self.operand_string, instruction)
         except ValueTypeError:
             raise OperandTypeError("[{}] is not an immediate value".format(operand_string))
-        if not self.value.is_immediate():
+        if not self.value.is_immediate() or self.value.is_leftright():
             raise OperandTypeError("[{}] is not an immediate value".format(operand_string))
 
     def translate(self):
@@ -513,6 +515,8 @@ class ExtendedIndexedOperand(Operand):
             raise OperandTypeError("[{}] is not an extended indexed value".format(operand_string))
         try:
             stripped_operand_string = operand_string[1:-1]
+            if stripped_operand_string.startswith("#"):
+                raise OperandTypeError("[{}] is not an extended indexed value".format(operand_string))
             self.value = Value.create_from_str(stripped_operand_string, self.instruction)
         except ValueTypeError:
             raise OperandTypeError("[{}] is not an extended indexed value".format(operand_string))
@@ -580,6 +584,9 @@ class ExtendedIndexedOperand(Operand):
         if "S" in self.right:
             raw_post_byte |= 0x60
 
+        if self.left == "" and "PCR" in self.right:
+            raise OperandTypeError("[{}] invalid indexed expression".format(self.operand_string))
+
         if self.left == "" or (type(self.left) != str and self.left.is_numeric() and self.left.int == 0 and "PCR" not in self.right):
             if "-" in self.right or "+" in self.right:
                 if self.right == "X+" or self.right == "Y+" or self.right == "U+" or self.right == "S+":
@@ -594,6 +601,8 @@ class ExtendedIndexedOperand(Operand):
                 raw_post_byte |= 0x14
 
         elif self.left == "A" or self.left == "B" or self.left == "D":
+            if "+" in self.right or "-" in self.right or "PCR" in self.right:
+                raise OperandTypeError("[{}] invalid indexed expression".format(self.operand_string))
             if self.left == "A":
                 raw_post_byte |= 0x16
             if self.left == "B":
@@ -678,6 +687,8 @@ class IndexedOperand(Operand):
         super().__init__(instruction)
         self.type = OperandType.INDEXED
         self.operand_string = operand_string
+        if operand_string.startswith("#"):
+            raise OperandTypeError("[{}] is not an indexed value".format(operand_string))
         try:
             self.value = Value.create_from_str(self.operand_string, self.instruction)
         except ValueTypeError:
@@ -720,6 +731,9 @@ class IndexedOperand(Operand):
         if "S" in self.right:
             raw_post_byte |= 0x60
 
+        if self.left == "" and "PCR" in self.right:
+            raise OperandTypeError("[{}] invalid indexed expression".format(self.operand_string))
+
         if self.left == "" or (type(self.left) != str and self.left.is_numeric() and self.left.int == 0 and "PCR" not in self.right):
             raw_post_byte |= 0x80
             if "-" in self.right or "+" in self.right:
@@ -735,6 +749,8 @@ class IndexedOperand(Operand):
                 raw_post_byte |= 0x04
 
         elif self.left == "A" or self.left == "B" or self.left == "D":
+            if "+" in self.right or "-" in self.right or "PCR" in self.right:
+                raise OperandTypeError("[{}] invalid indexed expression".format(self.operand_string))
             raw_post_byte |= 0x80
             if self.left == "A":
                 raw_post_byte |= 0x06
